@@ -77,6 +77,8 @@ def _media(specs, spec):
         for medium, files in (c or {}).items():
             for f in [files] if isinstance(files, str) else files:
                 css.append((medium, f))
+        if m.get("extend") is False:
+            break  # Media.extend = False: the bases' Media files are not part of this class's media
         spec = specs.get(spec.get("base"))
     return set(js), set(css)
 
